@@ -28,6 +28,12 @@ type PropSpec struct {
 	SweepRoots   []string `json:"sweep_roots"`   // zero-annotation safety sweep: every function in the call trees of these roots is a unit
 	SweepExclude []string `json:"sweep_exclude"` // substrings of function names left out (with the reason in assumptions)
 	SweepOnly    []string `json:"sweep_only"`    // obligation-name substrings kept for swept units (default: safety, frame, requires, invariant, variant, lock)
+	// A call to a library function that has neither a contract nor an intrinsic model may write
+	// anything its arguments reach; the frame obligation this generates usually fails. That is
+	// "the verifier has no model", not "the code is wrong": such a failure is reported as
+	// UNDECIDED (exit 2) - except for callees whose name contains one of these substrings, where
+	// leaving the modelled API is itself what the property forbids (C09: file-system calls).
+	UnmodelledIsViolation []string `json:"unmodelled_is_violation"`
 }
 
 type UnitSpec struct {
@@ -228,6 +234,16 @@ func runCheck(id, tier, repo, keep string, writeEvidence bool) int {
 		units = append(units, u)
 		funcsUnderContract = append(funcsUnderContract, strings.TrimPrefix(full, modulePath+"/internal/"))
 		for _, e := range u.errs {
+			if clauseEvalErr.MatchString(e) {
+				// a clause that no longer type-checks against the code (a local changed its type, a
+				// field disappeared): contract drift in this function, not an engine failure
+				eng.driftMu.Lock()
+				if _, seen := eng.drift[u.Name]; !seen {
+					eng.drift[u.Name] = "a clause no longer fits the code: " + trunc(e, 300)
+				}
+				eng.driftMu.Unlock()
+				continue
+			}
 			engErrs = append(engErrs, u.Name+": "+e)
 		}
 		for k := range u.usedAssumed {
@@ -293,13 +309,23 @@ func runCheck(id, tier, repo, keep string, writeEvidence bool) int {
 	// static (dataflow / frame) obligations
 	statics, serrs := runStatics(eng, id, ps.Static)
 	engErrs = append(engErrs, serrs...)
-	if len(engErrs) > 0 {
-		sort.Strings(engErrs)
+	// a unit, sweep root or static obligation that names a function (or parameter) the code no
+	// longer has is contract drift: reported, the rest of the check still runs
+	{
+		var fatal []string
 		for _, e := range engErrs {
-			fmt.Printf("ENGINE-ERROR property=%s %s\n", id, e)
+			if missingFuncErr.MatchString(e) {
+				eng.driftMu.Lock()
+				eng.drift[e] = "named by the check's unit list or a static obligation"
+				eng.driftMu.Unlock()
+				continue
+			}
+			fatal = append(fatal, e)
 		}
-		return 2
+		engErrs = fatal
 	}
+	earlyErrs := engErrs
+	engErrs = nil
 	// bounded stand-ins and bounded validation of assumptions (never counted as discharged)
 	var boundedReps []boundedReport
 	boundedViolations := 0
@@ -339,10 +365,14 @@ func runCheck(id, tier, repo, keep string, writeEvidence bool) int {
 			}
 		}
 	}
+	engErrs = append(earlyErrs, engErrs...)
 	if len(engErrs) > 0 {
 		sort.Strings(engErrs)
 		for _, e := range engErrs {
 			fmt.Printf("ENGINE-ERROR property=%s %s\n", id, e)
+		}
+		if boundedViolations > 0 {
+			return 1 // a concrete failing input on the real code is a verdict whatever else went wrong
 		}
 		return 2
 	}
@@ -370,6 +400,7 @@ func runCheck(id, tier, repo, keep string, writeEvidence bool) int {
 	var slow []string
 	exit := 0
 	undecided := 0
+	unmodelled := 0
 	unitFailed := map[*Unit]bool{}
 	for _, o := range all {
 		if !o.ExpectSat && !o.Holds() {
@@ -418,6 +449,20 @@ func runCheck(id, tier, repo, keep string, writeEvidence bool) int {
 			continue
 		}
 		replay := writeReplay(eng, id, o, dir)
+		if !replay.Confirmed && o.Kind == "frame-unmodelled" {
+			strict := false
+			for _, sub := range ps.UnmodelledIsViolation {
+				if strings.Contains(o.Name, "frame[call "+sub) {
+					strict = true
+				}
+			}
+			if !strict {
+				fmt.Printf("UNDECIDED property=%s obligation=%q verdict=%s (call to a library function the verifier has no contract for: its effect is unknown, nothing is concluded)\n", id, o.Name, o.Res.Verdict)
+				undecided++
+				unmodelled++
+				continue
+			}
+		}
 		if !replay.Confirmed && driftedObligation(eng, o.Name) {
 			// part of this function's contract no longer resolves against the code (a renamed
 			// local, a moved loop): what is left of it is too weak to carry the proof, and a failed
@@ -480,6 +525,10 @@ func runCheck(id, tier, repo, keep string, writeEvidence bool) int {
 			fmt.Printf("ENGINE-ERROR property=%s contract drift and no violation found (%d obligations undecided): the contracts must be brought in line with the code\n", id, undecided)
 			exit = 2
 		}
+	}
+	if unmodelled > 0 && violations+boundedViolations == 0 && exit == 0 {
+		fmt.Printf("ENGINE-ERROR property=%s %d obligation(s) undecided because of unmodelled library calls and no violation found: add a contract for the callee to the prelude\n", id, unmodelled)
+		exit = 2
 	}
 	violations += boundedViolations
 	if violations > 0 {
@@ -597,6 +646,10 @@ func round3(f float64) float64 { return float64(int(f*1000+0.5)) / 1000 }
 func shortPos(s string) string { return strings.TrimPrefix(s, "/repo/") }
 
 var otherTag = regexp.MustCompile(`\[(C[0-9]{2})\.`)
+
+var clauseEvalErr = regexp.MustCompile(`(invariant|requires|ensures|hint|defines|proves|decreases) "`)
+
+var missingFuncErr = regexp.MustCompile(`^function ".*" not found$|has no parameter `)
 
 // oblSelected: does obligation o of a unit listed under property id count for it?
 func oblSelected(o *Obligation, id string, us UnitSpec) bool {
